@@ -251,6 +251,15 @@ def directed(run, prop, tier, seed):
                 (f"*=0x008000\n.macro row(wide) {{\n.for k := 0, 2 {{\n.if wide {{\n.db wide\n}} else {{\n.db 0xEE\n}}\n}}\n}}\nrow({a})\nrow(0)\n", bytes([a, a, 0xEE, 0xEE])),
                 (f"*=0x008000\n.scope cfg {{\non := {a}\n{{\n.for k := 0, 2 {{\n.if on {{\n.db k\n}}\n}}\n}}\n}}\n", bytes([0, 1])),
                 (f"*=0x008000\n.for i := 0, 2 {{\n.for j := 0, {c} {{\n.db i, j\n}}\n}}\njmp.w done\ndone:\n", b"".join(bytes([i, j]) for i in range(2) for j in range(c)) + b"\x4c" + (0x8000 + 4 * c + 3).to_bytes(2, "little")),
+                # the selected branch is assembled exactly as written by hand: what that refuses, the .if refuses too
+                # (only an undefined name in the *condition* counts as false)
+                (f"*=0x008000\n.db {a}\n.if {b} {{\n.db 1\nno_such_macro_zq()\n}} else {{\n.db 2\n}}\n", None),
+                (f"*=0x008000\n.db {a}\n.if {b} {{\n.db 1\nzz_x := undefined_zq + 4\n.db zz_x\n}} else {{\n.db 2\n}}\n", None),
+                (f"*=0x008000\n.db {a}\n.if {b} {{\n.for zz_i := 0, undefined_zq {{\n.db 1\n}}\n}} else {{\n.db 2\n}}\n", None),
+                (f"*=0x008000\n.db {a}\n.if 0 {{\n.db 1\n}} else {{\n.db 2\nno_such_macro_zq({c})\n}}\n", None),
+                (f"*=0x008000\n.db {a}\n.if {b} {{\n.if 1 {{\nzz_y := undefined_zq\n}}\n}}\n.db {c}\n", None),
+                # ... and the other branch may hold anything that parses
+                (f"*=0x008000\n.db {a}\n.if 0 {{\nno_such_macro_zq()\nzz_x := undefined_zq + 4\n}} else {{\n.db 2\n}}\n.db {c}\n", bytes([a, 2, c])),
             ]
     progs = [raw("low_rom", src, meta=exp) for src, exp in fam]
     for pr, r, m in run.run(progs, trace=False):
